@@ -302,11 +302,14 @@ func runC19(seed int64, tier string, outDir string) *result {
 		// runs, so the comparison is exact even for the inconsistent comparator LWW is on ties.
 		// Longer lists (up to 60) only with distinct hashes and the hash ordering (total order).
 		ln := rng.Intn(21)
-		long := rng.Intn(5) == 0
+		long := rng.Intn(5) == 0 || n == 7
 		var in []skey
 		if long {
 			fi = []int{2, 6}[rng.Intn(2)]
 			ln = 21 + rng.Intn(40)
+			if rng.Intn(8) == 0 || n == 7 {
+				ln = 1024 + rng.Intn(2200) // lists beyond a thousand entries (a replica catching up) sort like short ones
+			}
 			used := map[string]bool{}
 			for len(in) < ln {
 				k := mk(pick(rng, timesIn), pick(rng, ids), fakeCid(fmt.Sprintf("long-%d-%d-%d", seed, n, len(in))))
@@ -386,7 +389,35 @@ func runC19(seed int64, tier string, outDir string) *result {
 	}
 	res.CaseFiles = writeShards(outDir, "C19", header, []*caseList{pairList, sortList, customList}, 250)
 	res.ModelCases = nPairs + nSorts + len(customList.items)
-	res.Evaluations = nPairs + nCustomPairs + nTriples + nSorts
+	// the orderings look at the entries as they are NOW: an entry object that is given another hash
+	// after it has been compared (SetHash is public; the codecs and CreateEntry use it) ranks by that hash
+	nRehash := 0
+	for k := 0; k < 40; k++ {
+		id := []byte(fmt.Sprintf("rehash-%d", k%3))
+		t := rng.Intn(5)
+		hs := []cid.Cid{fakeCid(fmt.Sprintf("rh-a-%d-%d", seed, k)), fakeCid(fmt.Sprintf("rh-b-%d-%d", seed, k)), fakeCid(fmt.Sprintf("rh-c-%d-%d", seed, k))}
+		e := &entry.Entry{Hash: hs[0], Clock: entry.NewLamportClock(id, t)}
+		o := &entry.Entry{Hash: hs[1], Clock: entry.NewLamportClock(id, t)}
+		for step, h := range []cid.Cid{hs[0], hs[2], hs[1], hs[0]} {
+			if step > 0 {
+				e.SetHash(h)
+			}
+			nRehash++
+			got, err := sorting.SortByEntryHash(e, o)
+			want := sgn(strings.Compare(h.String(), hs[1].String()))
+			if err != nil || sgn(got) != want {
+				fail("hash-tiebreak-current", "C19:tiebreak-ignores-current-hash", fmt.Sprintf("entries with equal clocks: after SetHash the first carries %s, the second %s; the hash ordering answers %d (err %v), the hashes compare %d", h, hs[1], got, err, want), map[string]interface{}{"step": step})
+				break
+			}
+			vals := []iface.IPFSLogEntry{o, e}
+			sorting.Sort(sorting.SortByEntryHash, vals, false)
+			if want < 0 && vals[0] != iface.IPFSLogEntry(e) || want > 0 && vals[0] != iface.IPFSLogEntry(o) {
+				fail("hash-tiebreak-current", "C19:tiebreak-ignores-current-hash", "Sort does not order two equal-clock entries by their current hashes", map[string]interface{}{"step": step})
+				break
+			}
+		}
+	}
+	res.Evaluations = nPairs + nCustomPairs + nTriples + nSorts + nRehash
 	res.Distinct = len(distinctClass)
 	res.Rule = "pairs: full square of a pool of sort keys over {times} x {ids} x 2 random hashes (in-range times) plus a pool with negative/extreme times; a pair class is (sign of time diff, sign of id diff, sign of hash diff), distinct_nontrivial counts the classes hit; triples: random; sorts: random lists of 0..20 pool elements (with ties) under all 8 comparator variants, both directions, plus lists of 21..60 distinct entries under the hash ordering"
 	cl := make([]string, 0, len(distinctClass))
